@@ -90,9 +90,34 @@ def read_chunk_post(f, offset, size, result):
 @safe
 def getitem_post(self, indexers, result):
     EVALS["Array.__getitem__.post"] += 1
+    # expected shape under ORTHOGONAL (outer) semantics, which is what a backend array is asked for: an integer drops its
+    # axis, a slice keeps range-length many, an integer array its length, a boolean mask its number of True entries
     try:
-        expect = np.empty(tuple(self.shape), dtype=bool)[tuple(indexers)].shape
-    except Exception as e:  # the key was not valid for the shape: nothing to compare
+        expect = []
+        if len(indexers) > len(self.shape):
+            raise IndexError("too many indices")
+        for k, n in zip(tuple(indexers) + (slice(None),) * (len(self.shape) - len(indexers)), self.shape):
+            if isinstance(k, (int, np.integer)):
+                if not -n <= k < n:
+                    raise IndexError(k)
+            elif isinstance(k, slice):
+                expect.append(len(range(n)[k]))
+            else:
+                a = np.asarray(k)
+                if a.dtype == bool:
+                    if a.shape != (n,):
+                        raise IndexError("mask length")
+                    expect.append(int(a.sum()))
+                elif a.ndim == 1 and a.dtype.kind in "iu":
+                    if a.size and (a.min() < -n or a.max() >= n):
+                        raise IndexError("out of range")
+                    expect.append(int(a.size))
+                elif a.ndim == 0 and a.dtype.kind in "iu":
+                    pass
+                else:
+                    raise IndexError("unsupported key")
+        expect = tuple(expect)
+    except Exception:  # the key was not valid for the shape: nothing to compare
         EVALS["Array.__getitem__.invalid_key"] += 1
         return True
     res = np.asarray(result)
